@@ -337,7 +337,7 @@ pub struct DecCase {
     pub toi: String,
     pub a: bool,
     pub b: bool,
-    /// extension list: "fdt", "cenc", "time", "time-hi", "fti", "u<het>:<hel>" unknown variable, "x<het>" unknown fixed
+    /// extension list: "fdt", "cenc", "time", "time-hi", "time-hi-ert", "time-hi-slc", "time-hi-ert-slc", "time-all", "fti", "u<het>:<hel>" unknown variable, "x<het>" unknown fixed
     pub exts: Vec<String>,
     pub fti: OtiV,
     pub l: u64,
@@ -399,6 +399,26 @@ pub fn check_decode(c: &DecCase) -> Option<(String, String)> {
                 has.2 = true;
                 frac = false;
                 rfc::ext_time(c.sct_s, None)
+            }
+            // SCT with the other optional time values of RFC 5651 (expected residual time, session last changed)
+            "time-hi-ert" => {
+                has.2 = true;
+                frac = false;
+                rfc::ext_time_full(c.sct_s, None, Some(0x8000_0000), None)
+            }
+            "time-hi-slc" => {
+                has.2 = true;
+                frac = false;
+                rfc::ext_time_full(c.sct_s, None, None, Some(0xE8F5_C28F))
+            }
+            "time-hi-ert-slc" => {
+                has.2 = true;
+                frac = false;
+                rfc::ext_time_full(c.sct_s, None, Some(3600), Some(c.sct_s.wrapping_sub(77)))
+            }
+            "time-all" => {
+                has.2 = true;
+                rfc::ext_time_full(c.sct_s, Some(c.sct_f), Some(0x0027_8D00), Some(c.sct_s.wrapping_sub(5)))
             }
             "fti" => {
                 has.3 = true;
@@ -966,7 +986,7 @@ pub fn dec_grid(thorough: bool) -> Vec<DecCase> {
     }
     for s in [2_208_988_800u64, 2_208_988_800 + 946_684_800, 2_208_988_800 + EPOCH_2027, u32::MAX as u64] {
         for f in [0u32, 1, 4294, 0x7FFF_FFFF, 0xFFFF_FFFF] {
-            for kind in ["time", "time-hi"] {
+            for kind in ["time", "time-hi", "time-hi-ert", "time-hi-slc", "time-hi-ert-slc", "time-all"] {
                 let mut d = dec_base(0);
                 d.toi = "0".into();
                 d.exts = vec!["fdt".into(), kind.into(), "fti".into()];
